@@ -635,6 +635,14 @@ def tag_variants(delims=DEFAULT_DELIMS, extended=False):
     return out
 
 
+def raw_plus_variants(delims=DEFAULT_DELIMS):
+    """raw blocks whose OPENING tag carries '+' on its right side (`{% raw +%}`): by the stated rules '+' only disables
+    automatic trimming, of which there is none after an opening raw tag, so it must be accepted and change nothing"""
+    bs, be, vs, ve, cs, ce = delims
+    return [(f"raw+[{l}|{r}]", [Tag("rawbegin", l, "+", bs + l + " raw +" + be), RAW_BODY, Tag("rawend", "", r, bs + " endraw " + r + be)])
+            for l, r in itertools.product(MODS, MODS)]
+
+
 def delims_of(kwargs):
     e = jinja2.Environment(**kwargs)
     return (e.block_start_string, e.block_end_string, e.variable_start_string, e.variable_end_string, e.comment_start_string, e.comment_end_string)
